@@ -73,7 +73,7 @@ def _get_serialize(field, cls):
 
     def wrapped(self):
         val = field.__get__(self, owner)  # pylint: disable=unnecessary-dunder-call
-        return obj.serialize(val) if val is not None else None
+        return field.serialize(val) if val is not None else None
 
     return wrapped
 
